@@ -22,7 +22,12 @@ pub struct Parser<'a> {
     /// Re-parsing the same text (after an enclosing speculative parse was rolled back)
     /// skips the attempt, which keeps nested parentheses polynomial instead of 2^depth.
     not_arrow_params_at: FxHashSet<usize>,
+    /// Current nesting depth of the recursive-descent calls (see MAX_NESTING_DEPTH)
+    depth: u32,
 }
+
+/// Maximum depth of nested statements, expressions, patterns and types.
+const MAX_NESTING_DEPTH: u32 = 200;
 
 impl<'a> Parser<'a> {
     pub fn new(source: &'a str, string_dict: &'a mut StringDict) -> Self {
@@ -34,6 +39,7 @@ impl<'a> Parser<'a> {
             previous: Token::eof(0, 1, 1),
             no_in: false,
             not_arrow_params_at: FxHashSet::default(),
+            depth: 0,
         }
     }
 
@@ -41,6 +47,22 @@ impl<'a> Parser<'a> {
     #[inline]
     fn intern(&mut self, s: &str) -> JsString {
         self.lexer.string_dict().get_or_insert(s)
+    }
+
+    /// Enter one level of syntactic nesting. The parser and the compiler recurse on the
+    /// native stack, so nesting is bounded and deeper input is a syntax error.
+    #[inline]
+    fn enter_nesting(&mut self) -> Result<(), JsError> {
+        if self.depth >= MAX_NESTING_DEPTH {
+            return Err(self.error("Nesting too deep"));
+        }
+        self.depth += 1;
+        Ok(())
+    }
+
+    #[inline]
+    fn leave_nesting(&mut self) {
+        self.depth = self.depth.saturating_sub(1);
     }
 
     /// Parse a complete program
@@ -88,6 +110,13 @@ impl<'a> Parser<'a> {
     // ============ STATEMENTS ============
 
     fn parse_statement(&mut self) -> Result<Statement, JsError> {
+        self.enter_nesting()?;
+        let result = self.parse_statement_inner();
+        self.leave_nesting();
+        result
+    }
+
+    fn parse_statement_inner(&mut self) -> Result<Statement, JsError> {
         // Check for decorators first - they can precede class declarations
         if self.check(&TokenKind::At) {
             let decorators = self.parse_decorators()?;
@@ -294,6 +323,13 @@ impl<'a> Parser<'a> {
     }
 
     fn parse_binding_pattern(&mut self) -> Result<Pattern, JsError> {
+        self.enter_nesting()?;
+        let result = self.parse_binding_pattern_inner();
+        self.leave_nesting();
+        result
+    }
+
+    fn parse_binding_pattern_inner(&mut self) -> Result<Pattern, JsError> {
         match &self.current.kind {
             TokenKind::Identifier(_) => {
                 let id = self.parse_identifier()?;
@@ -2094,6 +2130,13 @@ impl<'a> Parser<'a> {
     }
 
     fn parse_assignment_expression(&mut self) -> Result<Expression, JsError> {
+        self.enter_nesting()?;
+        let result = self.parse_assignment_expression_inner();
+        self.leave_nesting();
+        result
+    }
+
+    fn parse_assignment_expression_inner(&mut self) -> Result<Expression, JsError> {
         // Check for yield expression
         if self.check(&TokenKind::Yield) {
             return self.parse_yield_expression();
@@ -2234,6 +2277,13 @@ impl<'a> Parser<'a> {
     }
 
     fn parse_unary_expression(&mut self) -> Result<Expression, JsError> {
+        self.enter_nesting()?;
+        let result = self.parse_unary_expression_inner();
+        self.leave_nesting();
+        result
+    }
+
+    fn parse_unary_expression_inner(&mut self) -> Result<Expression, JsError> {
         let start = self.current.span;
 
         if let Some(op) = self.current_unary_op() {
@@ -3562,6 +3612,13 @@ impl<'a> Parser<'a> {
     // ============ TYPE ANNOTATIONS ============
 
     fn parse_type_annotation(&mut self) -> Result<TypeAnnotation, JsError> {
+        self.enter_nesting()?;
+        let result = self.parse_type_annotation_inner();
+        self.leave_nesting();
+        result
+    }
+
+    fn parse_type_annotation_inner(&mut self) -> Result<TypeAnnotation, JsError> {
         self.parse_conditional_type()
     }
 
